@@ -245,6 +245,10 @@ def _compare_to_previous_run_info(
     except Exception as e:  # noqa: BLE001
         msg = f"Could not load previous run info: {e}, cannot use `cleanup=False`."
         raise ValueError(msg) from None
+    internal_shapes = _construct_internal_shapes(
+        dict(internal_shapes) if internal_shapes is not None else None,
+        pipeline,
+    )
     if internal_shapes != old.internal_shapes:
         msg = "Internal shapes do not match previous run, cannot use `cleanup=False`."
         raise ValueError(msg)
